@@ -283,6 +283,32 @@ def main(chk):
             chk.fail("a range held in a variable does not select the same elements the second time: `%s` gives %s, expected %s" % (
                 prog.replace("\n", "; "), r.get("repr") or (r.get("errk"), r.get("errmsg")), want), reuse_fail, klass="C11:range-reuse")
             break
+    # 4. a SEQUENCE held in a variable is not changed by slicing it (whatever a slice caches): later indexes and slices of the same
+    #    variable give what they give on a fresh literal; a function that slices with a computed bound is called several times
+    seqs = ['"abcde"', '"a\u00e9\u3042z"', "[1, 2, 3, 4, 5]", '"ab"']
+    firsts = ["[::-1]", "[::2]", "[1:]", "[-2:]", "[::-2]", "[0]", "[-1]", "[1:3]"]
+    seconds = ["[0]", "[1:3]", "[::-1]", "[-1]", "[::2]", "[:]"]
+    sprogs, smeta = [], []
+    for sq in seqs:
+        for f1 in firsts:
+            after = "s := %s\nx := s%s\n[%s, s]" % (sq, f1, ", ".join("s" + g for g in seconds))
+            fresh = "[%s, %s]" % (", ".join("(%s)%s" % (sq, g) for g in seconds), sq)
+            sprogs += [after, fresh]
+            smeta.append((sq, f1))
+    sprogs.append('tail := {|s, n| s[-n:]}\nhead := {|s, n| s[:-n]}\nrev := {|s, k| s[::-k]}\n'
+                  '[tail("abcdef", 1), tail("abcdef", 3), tail("abcdef", 2), tail([1, 2, 3, 4], 3), tail([1, 2, 3, 4], 1), head("abcdef", 2), head("abcdef", 4), rev("abcdef", 1), rev("abcdef", 2), rev("abcdef", 1)]')
+    sprogs.append('["abcdef"[-1:], "abcdef"[-3:], "abcdef"[-2:], [1, 2, 3, 4][-3:], [1, 2, 3, 4][-1:], "abcdef"[:-2], "abcdef"[:-4], "abcdef"[::-1], "abcdef"[::-2], "abcdef"[::-1]]')
+    souts = harness("eval", [{"src": p_} for p_ in sprogs], shards=NCPU)
+    for k in range(0, len(souts), 2):
+        a, b = souts[k], souts[k + 1]
+        chk.count(("seq-reuse", sprogs[k]), True)
+        if (a["kind"], a.get("repr")) != (b["kind"], b.get("repr")):
+            chk.fail("slicing a sequence held in a variable changes what later slices of it give: `%s` gives %s, on fresh literals %s" % (
+                sprogs[k].replace("\n", "; "), a.get("repr") or (a.get("errk"), a.get("errmsg")), b.get("repr") or (b.get("errk"), b.get("errmsg"))),
+                {"program": sprogs[k], "fresh": sprogs[k + 1], "impl": {x: a.get(x) for x in ("kind", "repr", "errk", "errmsg")},
+                 "impl_fresh": {x: b.get(x) for x in ("kind", "repr", "errk", "errmsg")}}, klass="C11:sequence-reuse")
+            break
+    hist["sequence-reuse"] = len(souts) // 2
     hist["range-reuse"] = len(reuse)
     failing = [f for f in failing if f[0] != -1]
     # decide -------------------------------------------------------------
